@@ -182,6 +182,14 @@ pub fn units() -> Vec<Unit> {
                     variants: vec![
                         "module SvUserB {\n    inst u_if: $sv::foo_if;\n}\n",
                         "module SvUserB {\n    inst u_if : $sv::foo_if;\n    inst u_if2: $sv::bar_if;\n}\n",
+                        "module SvUserB {\n    inst u_if2: $sv::bar_if;\n}\n",
+                    ],
+                },
+                Slot {
+                    path: "src/sv_c.veryl",
+                    variants: vec![
+                        "module SvUserC {\n    inst u_if : $sv::foo_if;\n    inst u_if3: $sv::baz_if;\n}\n",
+                        "module SvUserC {\n    inst u_if: $sv::bar_if;\n}\n",
                     ],
                 },
             ],
